@@ -33,20 +33,31 @@ FIELD_EXCEPTIONS = {
 }
 
 
+def variant_fields(F, adt, variant=None):
+    """field records of a struct, or of one / all variants of an enum"""
+    it = F.struct(adt)
+    if not it:
+        return None
+    out = []
+    for v in it["variants"]:
+        if variant is None or v["n"] == variant:
+            out.extend(v["fields"])
+    return out
+
+
 def reachable_adts(F, ty, seen):
+    # a trait object owns no named ADT: the types printed after `dyn` are its methods' parameter / return types
+    # (Box<dyn Fn(&SharedEvent) -> bool> does not own an Event); FnMut objects are handled by the caller
+    ty = ty.split("dyn ", 1)[0]
     for name in re.findall(r"varpulis_runtime::[A-Za-z0-9_:]+", ty):
         if name in seen:
             continue
-        fs = F.fields(name)
-        vs = F.variants(name) if fs is None else None
-        if fs is None and not vs:
+        fs = variant_fields(F, name)
+        if fs is None:
             continue
         seen.add(name)
-        for f in fs or []:
+        for f in fs:
             reachable_adts(F, f["ty"], seen)
-        for v in vs or []:
-            for f in F.fields(name + "::" + v) or []:
-                reachable_adts(F, f["ty"], seen)
     return seen
 
 
@@ -75,18 +86,26 @@ def run_stateless(ctx):
     for r in F.fieldacc:
         if r["k"] in ("w", "m", "wt", "mt") and root_fn(r["f"]) in reach:
             writes.setdefault(r["adt"], []).append(r)
+    n_payload = 0
     for v in sorted(allowed):
-        fs = F.fields(OP + "::" + v) or []
+        fs = variant_fields(F, OP, v)
+        if fs is None:
+            ctx.anchor_lost("stateless", "variant RuntimeOp::%s not found in the item facts" % v)
+            continue
+        n_payload += len(fs)
         adts = set()
         for f in fs:
             reachable_adts(F, f["ty"], adts)
         bad = [(a, w) for a in sorted(adts) for w in writes.get(a, [])]
-        if bad:
+        if any("FnMut" in f["ty"] for f in fs):
+            ctx.violation("stateless", "op:" + v, "RuntimeOp::%s is classified stateless but its payload is an FnMut object (a closure with mutable captured state)" % v)
+        elif bad:
             a, w = bad[0]
             ctx.violation("stateless", "op:" + v, "RuntimeOp::%s is classified stateless but its payload carries state: %s.%s is written in %s — round-robin splitting gives each worker its own copy of that state" % (
                 v, a.rsplit("::", 1)[1], w["field"], root_fn(w["f"]).rsplit("::", 1)[1]), site=w["sp"])
         else:
             ctx.ok("stateless", "op:" + v, "payload ADTs %s: no field written on the processing path" % (sorted(x.rsplit("::", 1)[1] for x in adts) or "(none)"))
+    ctx.floor("stateless", "payload fields of the accepted variants (each accepted variant carries one)", n_payload, len(allowed))
     ctx.sample({"stateless_ops": sorted(allowed)})
     # state-holding stream fields
     tested = set()
